@@ -1,6 +1,184 @@
-import Driver.Common
-namespace Rtp.Kinds.H265
-open Rtp Rtp.Proto
+/-
+  Driver/Kinds/H265.lean — case kinds of group `h265`: C14 (c14.acc.*, c14.dec, c14.rt) and the
+  H265 parts of C08 / C09.  Token grammar (mirrored by harness/kinds_h265.go):
 
-def handlers : List (String × Handler) := []
+    hdr     <f> <type> <layer> <tid>
+    packet  single hdr <opt u16> <bytes>
+          | ap hdr <opt u16> [<size>] <nal> <n> (<opt u8> [<size>] <nal>)*        sizes only in views
+          | fu hdr <s> <e> <futype> <opt u16> <bytes>
+          | paci hdr <a> <ctype> <phs> <f0> <f1> <f2> <y> <phes> <bytes>
+    view    packet(with sizes) + for paci: <opt (tl0 irap s e res)>               | nilpkt
+-/
+import Driver.Common
+import Rtp.Model.H265Obs
+namespace Rtp.Kinds.H265
+open Rtp Rtp.Proto Rtp.Pred Rtp.Spec.Rfc7798
+open Rtp.Model.H265
+
+def rdHdr : Rd Hdr := do
+  let f ← Rd.bool; let t ← Rd.u8; let l ← Rd.u8; let i ← Rd.u8
+  pure { f := f, type := t, layer := l, tid := i }
+
+def rdTsci : Rd Tsci := do
+  let a ← Rd.u8; let b ← Rd.u8; let s ← Rd.bool; let e ← Rd.bool; let r ← Rd.u8
+  pure { tl0 := a, irap := b, s := s, e := e, res := r }
+
+/-- a packet; with `sizes` the NALUSize of every aggregation unit is read too and compared with
+    the unit's length (second component) -/
+def rdPacket (sizes : Bool) : Rd (Packet × Bool) := do
+  let tag ← Rd.tok
+  match tag with
+  | "single" => do
+    let h ← rdHdr; let d ← Rd.opt Rd.u16; let p ← Rd.bytes
+    pure (.single h d p, true)
+  | "ap" => do
+    let h ← rdHdr; let d ← Rd.opt Rd.u16
+    let unit : Rd (Bytes × Bool) := do
+      if sizes then
+        let s ← Rd.nat; let n ← Rd.bytes; pure (n, s == n.length)
+      else
+        let n ← Rd.bytes; pure (n, true)
+    let (first, ok0) ← unit
+    let rest ← Rd.list (do let dd ← Rd.opt Rd.u8; let (n, ok) ← unit; pure ((dd, n), ok))
+    pure (.ap h d first (rest.map (·.1)), ok0 && rest.all (·.2))
+  | "fu" => do
+    let h ← rdHdr; let s ← Rd.bool; let e ← Rd.bool; let t ← Rd.u8; let d ← Rd.opt Rd.u16
+    let p ← Rd.bytes
+    pure (.fu h s e t d p, true)
+  | "paci" => do
+    let h ← rdHdr; let a ← Rd.bool; let c ← Rd.u8; let phs ← Rd.u8
+    let f0 ← Rd.bool; let f1 ← Rd.bool; let f2 ← Rd.bool; let y ← Rd.bool
+    let phes ← Rd.bytes; let p ← Rd.bytes
+    pure (.paci h a c phs f0 f1 f2 y phes p, true)
+  | _ => Rd.fail
+
+def rdView : Rd Parsed := do
+  let (p, ok) ← rdPacket true
+  let t ← match p with
+    | .paci .. => Rd.opt rdTsci
+    | _ => pure none
+  pure { pkt := p, tsci := t, sizesOk := ok }
+
+/-- `nilpkt` | view -/
+def rdViewOpt : Rd (Option Parsed) := fun s =>
+  match s with
+  | "nilpkt" :: r => some (none, r)
+  | _ => (rdView.map some) s
+
+/-! ### c14.acc -/
+
+def accHdr : Handler :=
+  mkHandler Rd.u16
+    (do let f ← Rd.bool; let t ← Rd.u8; let v ← Rd.bool; let l ← Rd.u8; let i ← Rd.u8
+        let a ← Rd.bool; let u ← Rd.bool; let p ← Rd.bool
+        pure ({ f := f, type := t, vcl := v, layer := l, tid := i, agg := a, fu := u, paci := p } : C14.HdrAcc))
+    hdrAcc C14.hdrAccOk
+
+def accFu : Handler :=
+  mkHandler Rd.u8
+    (do let s ← Rd.bool; let e ← Rd.bool; let t ← Rd.u8; pure ({ s := s, e := e, type := t } : C14.FuAcc))
+    fuAcc C14.fuAccOk
+
+def accPaci : Handler :=
+  mkHandler Rd.u16
+    (do let a ← Rd.bool; let c ← Rd.u8; let p ← Rd.u8; let f0 ← Rd.bool; let f1 ← Rd.bool
+        let f2 ← Rd.bool; let y ← Rd.bool
+        pure ({ a := a, cType := c, phs := p, f0 := f0, f1 := f1, f2 := f2, y := y } : C14.PaciAcc))
+    paciAcc C14.paciAccOk
+
+/-- `<a> <b> <c0> <count> => <count> (opt tsci)*` -/
+def accTsci : Handler :=
+  mkHandler (do let a ← Rd.u8; let b ← Rd.u8; let c ← Rd.nat; let n ← Rd.nat; pure (a, b, c, n))
+    (Rd.list (Rd.opt rdTsci))
+    (fun (a, b, c, n) => tsciAcc a b c n)
+    (fun (a, b, c, _) o => C14.tsciAccOk a b c o)
+
+/-! ### c14.dec -/
+
+def rdResParsed : Rd (Res Parsed) := do
+  let t ← Rd.tok
+  match t with
+  | "ok" => do let v ← rdView; pure (.ok v)
+  | "err" => do let _ ← Rd.tok; pure (.err .other)
+  | "panic" => pure .panic
+  | _ => Rd.fail
+
+/-- `<mode> <packet> <opt cut> <fed bytes> => <res view> <head>` -/
+def dec : Handler :=
+  mkHandler
+    (do let m ← Rd.bool; let (p, _) ← rdPacket false; let c ← Rd.opt Rd.nat; let b ← Rd.bytes
+        pure (m, p, c, b))
+    (do let r ← rdResParsed; let h ← Rd.bool; pure ({ res := r, head := h } : C14.DecObs))
+    (fun (m, _, _, b) => decObs m b)
+    (fun (m, p, c, b) o => C14.decOk m p c b o)
+    (fun (m, p, c, _) => p.WF m && (match c with | none => true | some n => decide (n < (encode p).length)))
+
+/-! ### c14.rt -/
+
+structure RtIn where
+  cfg : Cfg
+  mtu : UInt16
+  frames : List (List (Nat × Bytes))
+
+def rdRtIn : Rd RtIn := do
+  let a ← Rd.bool; let s ← Rd.bool; let m ← Rd.u16
+  let fr ← Rd.list (Rd.list (do let sc ← Rd.nat; let u ← Rd.bytes; pure (sc, u)))
+  pure { cfg := { addDONL := a, skipAgg := s }, mtu := m, frames := fr }
+
+def rdPktObs : Rd C14.PktObs := do
+  let p ← Rd.bytes; let r ← rdResParsed; let h ← Rd.bool
+  pure { payload := p, res := r, head := h }
+
+def rdRtObs : Rd (List (Option (List C14.PktObs))) :=
+  Rd.list (do
+    let t ← Rd.tok
+    match t with
+    | "panic" => pure none
+    | "ok" => do let l ← Rd.list rdPktObs; pure (some l)
+    | _ => Rd.fail)
+
+def rt : Handler :=
+  mkHandler rdRtIn rdRtObs (fun i => rtObs i.cfg i.mtu i.frames)
+    (fun i o => if rtWF i.cfg i.mtu i.frames then C14.rtOk i.cfg i.mtu i.frames o else C14.rtNoPanic o)
+    (fun i => rtWF i.cfg i.mtu i.frames)
+    (fun i _ => if rtKF i.cfg i.mtu i.frames then some "c14_donl_fu" else none)
+
+/-! ### c08.h265 -/
+
+def c08 : Handler :=
+  mkHandler (do let a ← Rd.bool; let s ← Rd.bool; let cs ← rdCalls; pure (({ addDONL := a, skipAgg := s } : Cfg), cs))
+    rdPayObsList
+    (fun (cfg, cs) => c08Obs cfg cs)
+    (fun (_, cs) os => C08.histOk false cs os)
+    (fun _ => true)
+    -- with AddDONL the bytes of a fragmented unit are those of the known finding c14_donl_fu: if the
+    -- finding is repaired, fragments differ from the model there (and must still satisfy C08)
+    (fun (cfg, cs) _ => if cfg.addDONL && (payloadHist cfg 0 cs).any (·.any isFU) then some "c14_donl_fu" else none)
+
+/-! ### c09.h265 -/
+
+abbrev Dep := C09.DepObs (Option Parsed)
+
+def rdDep : Rd Dep := do
+  let r ← Rd.resC Rd.bytes
+  let md ← rdViewOpt
+  let h ← Rd.bool; let t0 ← Rd.bool; let t1 ← Rd.bool
+  let ap ← Rd.bool; let fs ← Rd.bool; let ts ← Rd.bool
+  pure { res := r, md := md, head := h, tail0 := t0, tail1 := t1, auxPanic := ap, freshSame := fs, twinSame := ts }
+
+def c09 : Handler :=
+  mkHandler (do let d ← Rd.bool; let ps ← Rd.list Rd.obytes; pure (d, ps))
+    (Rd.list rdDep)
+    (fun (d, ps) => depHist d ps)
+    (fun _ os => C09.histOk true os)
+
+/-- `<which 0..3> <donl> <obytes> => <res view>`: a sub-parser called directly on a fresh receiver -/
+def sub : Handler :=
+  mkHandler (do let w ← Rd.nat; let d ← Rd.bool; let p ← Rd.obytes; pure (w, d, p)) rdResParsed
+    (fun (w, d, p) => subDecode w d p)
+    (fun _ o => !o.isPanic)
+
+def handlers : List (String × Handler) :=
+  [("c14.acc.hdr", accHdr), ("c14.acc.fu", accFu), ("c14.acc.paci", accPaci), ("c14.acc.tsci", accTsci),
+   ("c14.dec", dec), ("c14.rt", rt), ("c14.rt.donlfu", rt), ("c08.h265", c08), ("c09.h265", c09), ("c09.h265.sub", sub)]
 end Rtp.Kinds.H265
